@@ -10,6 +10,7 @@ import (
 	"encoding/json"
 	"fmt"
 	"runtime"
+	"strings"
 	"time"
 
 	"verifharness/lab/batch"
@@ -34,6 +35,52 @@ func runCases(raw json.RawMessage) (any, error) {
 	return rep, nil
 }
 
+// directed schedules (hook-ordered): see ringlab/directed.go
+type directedCase struct {
+	Name    string `json:"name"`
+	Seed    int64  `json:"seed"`
+	NetV    bool   `json:"netv"`
+	Backend int    `json:"backend"`
+}
+
+func runDirected(raw json.RawMessage) (any, error) {
+	var cases []directedCase
+	if err := json.Unmarshal(raw, &cases); err != nil {
+		return nil, err
+	}
+	rep := &batch.Report{}
+	prog := batch.OpenProgress()
+	for _, c := range cases {
+		prog.Begin(c.Name, c)
+		out := batch.CaseResult{Name: c.Name}
+		d := ringlab.RunNotifyHeldOverJoin(c.Seed, c.NetV, ringlab.Backend(c.Backend))
+		if d.Setup != "" {
+			// the schedule could not be built this time (e.g. the leave itself repaired the pointer): nothing judged
+			rep.Count("directed_schedules_not_constructed", 1)
+			why := d.Setup
+			if i := strings.IndexAny(why, "0123456789"); i > 0 {
+				why = why[:i]
+			}
+			rep.Count("directed_not_constructed: "+strings.TrimSpace(why), 1)
+			out.Sig = ""
+		} else {
+			nw := 0
+			for range d.Windows {
+				nw++
+			}
+			out.Sig = fmt.Sprintf("directed/%s/netv=%v/backend=%d/windows=%d", d.Name, c.NetV, c.Backend, nw)
+			rep.Count("directed_schedules_constructed(notify held over a join)", 1)
+			out.Sample = map[string]any{"schedule": d.Name, "windows_reached": d.Windows, "pred_of_S_at_end": d.PredAtEnd, "trace": d.Trace}
+		}
+		for _, f := range d.Findings {
+			out.Violations = append(out.Violations, batch.Viol{Key: f.Key, What: f.What, Witness: f.Witness})
+		}
+		prog.Done(out)
+		rep.Add(out)
+	}
+	return rep, nil
+}
+
 func runCase(c ringlab.ChurnCfg, rep *batch.Report) batch.CaseResult {
 	out := batch.CaseResult{Name: c.Name}
 	res := ringlab.RunChurnKV(c, child.InChildDir())
@@ -45,6 +92,12 @@ func runCase(c ringlab.ChurnCfg, rep *batch.Report) batch.CaseResult {
 		out.Inconclusive = "watchdog: " + res.Watchdog
 		return out
 	}
+	// the cause behind misplaced data, seen directly: a predecessor pointer that moved away from a live node
+	for _, f := range ringlab.CheckPredPointer(res) {
+		out.Violations = append(out.Violations, batch.Viol{Key: f.Key, What: f.What, Witness: f.Witness})
+	}
+	rep.Count("predecessor_pointer_samples_checked", res.PredSamples)
+	rep.Count("straggler_stalls_injected", res.Stragglers)
 	findings, st := ringlab.CheckLinearizable(res, 2*time.Minute)
 	for _, f := range findings {
 		out.Violations = append(out.Violations, batch.Viol{Key: f.Key, What: f.What, Witness: f.Witness})
@@ -95,9 +148,10 @@ func firstOps(ops []ringlab.OpRec, n int) []string {
 
 func main() {
 	child.Register("cases", runCases)
+	child.Register("directed", runDirected)
 	child.Main()
 	r := ev.Start("C04", "exploration")
-	r.SetRule("executions of real rings with 3-6 multi-writer clients over 2-4 keys issuing all seven KV operations (unique put values) through random entry nodes while 1-3 goroutines join and leave nodes, seeded delays at the chord hook points (around key transfer, state changes and between lookup and lock); after quiescence every key is read from every live node (appended to the history); distinct+non-trivial = hash of the interleaving of membership hook events across nodes, for executions with a completed join/leave and a non-empty checked history")
+	r.SetRule("executions of real rings with 3-6 multi-writer clients over 2-4 keys issuing all seven KV operations (unique put values) through random entry nodes while 1-3 goroutines join and leave nodes, seeded delays at the chord hook points (around key transfer, state changes and between lookup and lock); after quiescence every key is read from every live node (appended to the history); distinct+non-trivial = hash of the interleaving of membership hook events across nodes, for executions with a completed join/leave and a non-empty checked history; plus directed hook-ordered schedules: after a leave the first Notify reaching the successor is held between its ping and its apply while a second Notify repairs the pointer and a node joins in between, then released (the predecessor pointer must not move back; a write through the successor for a key of the joiner must be visible through its neighbours)")
 	r.Assume("operations that ended with a retryable error are removed from the history: if one took effect, a later read observes a value no remaining write produced and porcupine rejects the history")
 	r.Assume("ErrKVSimpleConflict on Put/Delete is a failed CAS without effect; ErrKVPrefixConflict is the duplicate-child outcome of PrefixAppend")
 	rng := r.Rand("cases")
@@ -127,6 +181,9 @@ func main() {
 				c.Initial = 4
 			}
 		}
+		if i%4 == 0 && !c.RealRPC {
+			c.Straggler = true // one step in twelve of Notify / stabilize stalls for 20-40 ms
+		}
 		if r.WantCase(c.Name) {
 			cases = append(cases, c)
 		}
@@ -147,6 +204,25 @@ func main() {
 		}
 	}
 	batch.Run(r, "cases", args, par, 25*time.Minute, func(inflight, head string) string { return "crash:" + head })
+	// directed schedules: a Notify held between its ping and its apply while a join completes
+	drng := r.Rand("directed")
+	nd := r.Pick(12, 96)
+	dbatches := make([][]directedCase, min(par, nd))
+	for i := 0; i < nd; i++ {
+		c := directedCase{Name: fmt.Sprintf("directed-%d", i), Seed: drng.Int63(), NetV: i%2 == 1, Backend: []int{int(ringlab.Memory), int(ringlab.Memory), int(ringlab.AOF), int(ringlab.SQLite)}[i%4]}
+		if r.WantCase(c.Name) {
+			dbatches[i%len(dbatches)] = append(dbatches[i%len(dbatches)], c)
+		}
+	}
+	var dargs []any
+	for _, b := range dbatches {
+		if len(b) > 0 {
+			dargs = append(dargs, b)
+		}
+	}
+	if len(dargs) > 0 {
+		batch.Run(r, "directed", dargs, par, 10*time.Minute, func(inflight, head string) string { return "crash:" + head })
+	}
 	batch.ReportRaces(r, "/chord.", "/kv/")
 	r.Finish()
 }
